@@ -6,10 +6,11 @@ Open Scope Z_scope.
 (* SERVER.  For every server state, every request (any packet type 0..255 and beyond, any id, any
    handle, any extended name, any callback result including exceptions and non-sense objects,
    undecodable text), one loop iteration of start_subsystem sends exactly one packet, carrying the
-   request's id, of a type valid for the request type.  (cf_ok: the black box _check_file - C32 -
-   sends one STATUS / EXTENDED_REPLY packet or raises before sending.) *)
+   request's id, of a type valid for the request type.  check-file included: every exit path of
+   _check_file (invalid handle, no algorithm, stat failure, small block, a read that fails at any
+   position, end of file, range done) is modelled, for every script of handle.read results. *)
 Theorem C30_server_once :
-  forall (s : sst) (q : req), cf_ok q ->
+  forall (s : sst) (q : req),
     exists r, snd (serve s q) = [r] /\ r_id r = q_id q /\ valid_for (q_t q) (r_type r) = true.
 Proof. exact server_once. Qed.
 Print Assumptions C30_server_once.
@@ -17,7 +18,7 @@ Print Assumptions C30_server_once.
 (* the server never stops answering: over any request stream, the i-th batch of packets is one
    packet with the i-th request's id *)
 Theorem C30_server_stream :
-  forall (qs : list req) (s : sst), Forall cf_ok qs ->
+  forall (qs : list req) (s : sst),
     length (serve_all s qs) = length qs /\
     map (fun l => map r_id l) (serve_all s qs) = map (fun q => [q_id q]) qs.
 Proof. exact server_stream_ids. Qed.
@@ -85,15 +86,21 @@ Theorem C30_client_terminates_v0_refuted :
 Proof. split; [exact v0_blocks | exact v1_hang_prog_returns]. Qed.
 Print Assumptions C30_client_terminates_v0_refuted.
 
-(* non-vacuity: a request stream that meets cf_ok and reaches handles, folders and failures *)
+(* check-file: exactly one packet on every exit path, for every read script *)
+Theorem C30_check_file_once :
+  forall s id h a,
+    check_file s id h a = Exc [] \/
+    exists rt d, check_file s id h a = Done [(rt, id, d)] /\ (rt = g_CMD_STATUS \/ rt = g_CMD_EXTENDED_REPLY).
+Proof. exact check_file_shape. Qed.
+Print Assumptions C30_check_file_once.
+
+(* a request stream that reaches handles, failures, and a check-file whose third read fails *)
 Definition C30_example_reqs : list req :=
-  [mkReq 3 7 true (-1) 2 CbHandle (Exc []); mkReq 10 8 true 5 2 (CbCode 0) (Exc []);
-   mkReq 99 9 true 1 2 CbOther (Exc []); mkReq 200 10 true 1 0 CbOther (Done [(201, 10, 0)])].
+  [mkReq 3 7 true (-1) 2 CbHandle cf_none; mkReq 10 8 true 5 2 (CbCode 0) cf_none;
+   mkReq 99 9 true 1 2 CbOther cf_none;
+   mkReq 200 10 true 1 0 CbOther (mkCf true true 0 1024 256 CbOther 0 [RBytes 256; RBytes 256; RCode 3; RBytes 256]);
+   mkReq 200 11 true 1 0 CbOther (mkCf true true 0 0 0 CbAttr 600 [RBytes 600; RBytes 0])].
 Example C30_example :
-  Forall cf_ok C30_example_reqs /\
-  run_server C30_example_reqs = [1; 102; 7; 1; 1; 101; 8; 5; 1; 101; 9; 4; 1; 201; 10; 0].
-Proof.
-  split; [|vm_compute; reflexivity].
-  unfold C30_example_reqs. repeat (apply Forall_cons); try apply Forall_nil; try (left; reflexivity).
-  right. exists 201, 0. split; [reflexivity | right; reflexivity].
-Qed.
+  run_server C30_example_reqs =
+    [1; 102; 7; 1; 1; 101; 8; 5; 1; 101; 9; 4; 1; 101; 10; 3; 1; 201; 11; 0].
+Proof. vm_compute; reflexivity. Qed.
